@@ -33,6 +33,7 @@ inductive Cond where
   | cmpE (op : COp) (e : GExpr) (b : Atom) (eLeft : Bool)   -- `(e) ⋈ b` / `b ⋈ (e)`, e a quiet tree (stage 12)
   | truthE (e : GExpr)          -- `if (e)` for a tree
   | cmpR (op : COp) (e : GExpr) (y : Bool) (eLeft : Bool)   -- a tree against X (`y = false`) or Y (stage 13)
+  | wcmp (ne : Bool) (s : String) (w : WA)      -- `s == w` / `s != w` on a 16-bit variable (stage 14); `if (s)` is `s != 0`
   deriving Repr, DecidableEq, Inhabited
 
 inductive SStmt where
@@ -259,6 +260,21 @@ def cmpRTest (g : GState) (op : COp) (e : GExpr) (y eLeft negate : Bool) (label 
      (branchInstr { g with flags := none } (finalOp op negate eLeft) label).1,
    (branchInstr { g with flags := none } (finalOp op negate eLeft) label).2)
 
+/-- the two byte passes of a 16-bit (in)equality: low difference to the scratch cell, high difference in A; against
+    literal 0 the bytes themselves -/
+def wcmpPre (s : String) (w : WA) : List (Mn × Option Atom) :=
+  if w == .wconst 0 then [(.LDA, some (.var s)), (.STA, some tmp), (.LDA, some (hiCell s))]
+  else [(.LDA, some (.var s)), (.SEC, none), (.SBC, some w.lo), (.STA, some tmp), (.LDA, some (hiCell s)), (.SBC, some w.hi)]
+
+/-- jump on "different": two branches to the label; jump on "equal": over an `.ifstart` label -/
+def wcmpTest (g : GState) (ne : Bool) (s : String) (w : WA) (negate : Bool) (label : Lbl) : List GLine × GState :=
+  if (ne != negate) then
+    ((wcmpPre s w).map (fun p => GLine.ins p.1 p.2) ++ [.br .BNE label, .ins .LDA (some tmp), .br .BNE label], { g with flags := none })
+  else
+    ((wcmpPre s w).map (fun p => GLine.ins p.1 p.2) ++
+        [.br .BNE ⟨.ifstart, g.cIf⟩, .ins .LDA (some tmp), .br .BEQ label, .lab ⟨.ifstart, g.cIf⟩],
+     { g with cIf := g.cIf + 1, flags := none })
+
 /-- `if (e)`: the flags describe A after an arithmetic operation, not after a shift (`CMP #0` then) -/
 def truthETest (g : GState) (e : GExpr) (negate : Bool) (label : Lbl) : List GLine × GState :=
   (treeLines e ++ (if e.topArithm then [] else [.ins .CMP (some (.const 0))]) ++ [.br (if negate then .BEQ else .BNE) label],
@@ -275,6 +291,7 @@ def genCond (g : GState) : Cond → Bool → Lbl → List GLine × GState
   | .cmpE op e b eLeft, negate, label => cmpETest g op e b eLeft negate label
   | .truthE e, negate, label => truthETest g e negate label
   | .cmpR op e y eLeft, negate, label => cmpRTest g op e y eLeft negate label
+  | .wcmp ne s w, negate, label => wcmpTest g ne s w negate label
   | .and a b, true, label =>
     let r1 := genCond g a true label
     let r2 := genCond r1.2 b true label
@@ -457,6 +474,7 @@ def condRun (L : Layout) (m : SrcSt) : Cond → Bool × SrcSt
     let r := treeRun L m e
     let reg := if y then r.2.y else r.2.x
     (if eLeft then op.eval r.1 reg else op.eval reg r.1, setTmp L r.2 r.1)
+  | .wcmp ne s w => (if ne then (wcmpRun L m s w).1 else !(wcmpRun L m s w).1, (wcmpRun L m s w).2)
 
 def evalCond (L : Layout) (m : SrcSt) (c : Cond) : Bool := (condRun L m c).1
 /-- the state a condition leaves behind -/
@@ -476,6 +494,9 @@ theorem evalCond_cmpR (op : COp) (e : GExpr) (y eLeft : Bool) : evalCond L m (.c
      else op.eval (if y then (treeRun L m e).2.y else (treeRun L m e).2.x) (treeRun L m e).1) := rfl
 @[simp] theorem condEff_cmpR (op : COp) (e : GExpr) (y eLeft : Bool) : condEff L m (.cmpR op e y eLeft) =
     setTmp L (treeRun L m e).2 (treeRun L m e).1 := rfl
+theorem evalCond_wcmp (ne : Bool) (s : String) (w : WA) : evalCond L m (.wcmp ne s w) =
+    (if ne then (wcmpRun L m s w).1 else !(wcmpRun L m s w).1) := rfl
+@[simp] theorem condEff_wcmp (ne : Bool) (s : String) (w : WA) : condEff L m (.wcmp ne s w) = (wcmpRun L m s w).2 := rfl
 theorem evalCond_not (c : Cond) : evalCond L m (.not c) = !evalCond L m c := rfl
 theorem evalCond_and (a b : Cond) : evalCond L m (.and a b) = (evalCond L m a && evalCond L (condEff L m a) b) := by
   simp only [evalCond, condEff, condRun]; split <;> simp_all
